@@ -31,8 +31,8 @@ CHECKS = {
          "Every transition and probe is executed in lock step on the in-memory backend, SQLite, and SQLite with a new storage object before every request; responses (modulo random ids) and stored state must be identical, and answers must not change across an explicit reopen.", "4.1, 5/C13"),
  "C14": ("E-SEQ", "model_checking", "explicit-state BFS with HTTP and library twins on twin storages; exact header/status/body encoding checked on every response",
          "Every transition and probe goes through the real actix app and through the library on a twin storage; status, X-Version-Id, X-Parent-Version-Id, X-Snapshot-Request, Content-Type and body must be exactly the encoding of the library outcome, including absence of headers that do not apply.", "4.1, 5/C14"),
- "C15": ("E-HTTP", "model_checking", "exhaustive request-grammar product (route x method x client-id form x path-id form x content-type form x body class) through the real actix app on servers holding state, storage-access counter + dump bracket",
-         "Every request of the grammar product (about 62 000 per server state, plus limit-sized bodies generated lazily) is sent through the real app on in-memory and SQLite servers holding non-trivial and empty state: never 5xx or panic; malformed in any dimension => 4xx and stored state identical (no writing storage call, else full dump compare); exactly-limit bodies accepted, limit+1 refused.", "4.2, 5/C15"),
+ "C15": ("E-HTTP+E-BIN", "model_checking", "exhaustive request-grammar product (route x method x client-id form x path-id form x content-type form x body class) through the real actix app on servers holding state, storage-access counter + dump bracket; plus an exhaustive wire-level grammar of malformed / cut-short bodies (framing x where it is cut x how the client goes on) sent over TCP to the real executable",
+         "Every request of the grammar product (about 62 000 per server state, plus limit-sized bodies generated lazily) is sent through the real app on in-memory and SQLite servers holding non-trivial and empty state: never 5xx or panic; malformed in any dimension => 4xx and stored state identical (no writing storage call, else full dump compare); exactly-limit bodies accepted, limit+1 refused. The wire-level part drives the executable built from /repo over loopback TCP with every body framing (Content-Length, chunked) x every way of cutting it short or contradicting it x both upload routes, and compares the stored state before and after through the API. Truncated chunked uploads followed by a half-close are an open known finding (root cause in the HTTP library), see known_findings.json.", "4.2, 5/C15, 6"),
  "C16": ("E-HTTP+E-SEQ", "model_checking", "exhaustive request-grammar product under allow-lists {none, empty, {A}, {A,B}} with a storage-access counter; listed clients explored by BFS in lock step with a list-less twin",
          "For every allow-list shape and every request of the grammar: unlisted and otherwise well-formed => exactly 403, unlisted and malformed => 4xx, zero storage transactions in both cases (counted at the Storage trait), listed or list-less => never 403. Listed clients' histories are explored by E-SEQ on allow-listed servers in lock step with list-less twins and must answer identically.", "4.2, 5/C16"),
  "C17": ("E-BIN", "exploration", "exhaustive enumeration of launch configurations of the real executable (flag / comma list / environment for every option), scripted protocol session over real TCP on every listen address, SIGKILL + restart, urgency compared with the model",
@@ -41,8 +41,8 @@ CHECKS = {
          "Every read, conflicting AddVersion and declined AddSnapshot in every reachable state within the bound is bracketed by complete dumps (raw SQLite tables and API view) which must be identical.", "4.1, 5/C18"),
  "C19": ("E-CORPUS", "exploration", "every data directory of a committed corpus written by the pinned tree (all canonical states of the quick exploration bound + crash images with leftover WAL + large payloads) opened by the current code, dumped, and continued by the E-SEQ explorer",
          "406 data directories written by the pinned commit a6bc6ed (every canonical state reached by the history exploration at its quick bound, plus clean and killed-mid-write directories with 10 KB - 1 MB payloads and a leftover write-ahead log) are opened by the current code on three implementations; the complete stored content must equal the recorded expectation and the E-SEQ explorer continues every history from there (every request of the alphabet; thorough: two steps deep). Exhaustive over the corpus only, hence level exploration.", "5/C19"),
- "C20": ("E-HTTP+E-SEQ", "model_checking", "Cache-Control monitor on every response of the exhaustive request-grammar product and of the BFS over histories (all routes, methods, outcomes, refusals, unknown routes)",
-         "Every response produced by the grammar product (all routes, methods, malformed variants, unknown routes, allow-list refusals) and by the history exploration through both HTTP implementations must carry Cache-Control containing no-store.", "4.2, 5/C20"),
+ "C20": ("E-HTTP+E-SEQ+E-BIN", "model_checking", "Cache-Control monitor on every response of the exhaustive request-grammar product and of the BFS over histories (all routes, methods, outcomes, refusals, unknown routes), and on every response of scripted sessions with the real executable including storage-failure answers",
+         "Every response produced by the grammar product (all routes, methods, malformed variants, unknown routes, allow-list refusals) and by the history exploration through both HTTP implementations must carry Cache-Control containing no-store; so must every response the real executable gives over TCP in the E-BIN sessions, including 500 answers provoked by making its storage fail underneath it.", "4.2, 5/C20"),
 }
 NOTE = {
  "default": "Trusted: the reference model (harness/src/model.rs), the harness itself, rustc; SQLite is part of the subject. Bounds (depth, clients, alphabet) are in the evidence file; nothing is claimed beyond them.",
@@ -74,11 +74,11 @@ def main():
             "enable": "the harness depends on /repo/core by path with features=[\"verif-hooks\"]; cargo feature unification turns it on for /repo/sqlite and /repo/server too",
             "baseline_off_cmd": "cd /repo && cargo test --workspace --no-fail-fast --offline",
             "source_commits": ["b92f929", "004e104"],
-            "fix_commits": ["2d7c899", "d223657"],
+            "fix_commits": ["2d7c899", "d223657", "9dc73cd"],
             "add_only": True,
         },
         "engines": [
-            {"name": "E-BIN", "path": "harness/src/ebin.rs", "serves_properties": ["C17"], "kind_free_text": "exhaustive configuration product against the real executable over loopback TCP"},
+            {"name": "E-BIN", "path": "harness/src/ebin.rs", "serves_properties": ["C15", "C17", "C20"], "kind_free_text": "exhaustive configuration product against the real executable over loopback TCP"},
             {"name": "E-CORPUS", "path": "harness/src/ecorpus.rs + fixtures/pinned + tools/gen_corpus.sh", "serves_properties": ["C19"], "kind_free_text": "committed corpus of data directories written by the pinned tree; opened, compared and continued by the current code"},
             {"name": "E-SCHED", "path": "harness/src/sched.rs + harness/src/esched.rs", "serves_properties": ["C03", "C11"], "kind_free_text": "own controlled scheduler over real OS threads running the real code; preemption-bounded DFS; linearizability oracle"},
             {"name": "E-CRASH", "path": "harness/src/ecrash.rs", "serves_properties": ["C04"], "kind_free_text": "VFS operation log -> exhaustive crash images -> recovery by the real code"},
